@@ -356,6 +356,12 @@ def pipeline(job, trace_props=None, tag="", force_degraded=None):
         cmd = ["cbmc", cur, "--verbosity", "8", "--drop-unused-functions", "--object-bits", "12"] + job.safety + job.cbmc
         if degraded:
             cmd = [c for c in cmd if c != "--unwinding-assertions"] + ["--unwind", str(job.degraded_unwind), "--no-unwinding-assertions"]   # cbmc 6 has them on by default
+            # the loops of dfcc's own instrumentation (write-set bookkeeping) must not be cut by the small bound meant for the
+            # loops of the code: they get a bound of their own
+            rc_i, text_i, _ = run(["goto-instrument", "--show-loops", cur], 120)
+            internal = sorted(set(m.group(1) for m in re.finditer(r"^Loop (__CPROVER_contracts\S*?\.\d+):", text_i or "", re.M)))
+            if internal:
+                cmd += ["--unwindset", ",".join("%s:64" % n for n in internal)]
             if job.degraded_unwind > 8:
                 # a deep bounded search: keep it feasible by unwinding the LAST-numbered loop of every function with
                 # several loops (the outermost of a nest: back edges are numbered in order) only 3 times.  Any choice of
@@ -377,6 +383,21 @@ def pipeline(job, trace_props=None, tag="", force_degraded=None):
             # nothing can be proved any more: look for ONE counterexample among the obligations of the specification
             # (--stop-on-fail on that subset: one solver call on a sliced formula instead of one per obligation)
             t1 = time.time()
+            # the unwinding bound also cuts the loops of dfcc's own instrumentation (write-set bookkeeping): with too small
+            # a bound the end of the harness is unreachable and the search is vacuous.  Deepen until the canary is reachable.
+            if not job.no_canary:
+                ub = job.degraded_unwind
+                for _ in range(4):
+                    if canary_reachable(job, cmd, log):
+                        break
+                    ub *= 4
+                    i = len(cmd) - 1 - cmd[::-1].index("--unwind")
+                    cmd[i + 1] = str(ub)
+                    log.write("bounded search: end of the harness not reachable, unwinding bound raised to %d\n" % ub)
+                else:
+                    info["degraded"] += " (bounded search vacuous: the end of the harness is not reachable within the unwinding bound)"
+                    info["stages"]["cbmc"] = round(time.time() - t1, 2)
+                    return [], info
             info["checker_cmd"] = " ".join(cmd).replace(WORK + "/", "work/") + " --stop-on-fail --property <spec obligations>"
             o = stop_on_fail(job, cmd, wd, log, spec_only=True)
             info["stages"]["cbmc"] = round(time.time() - t1, 2)
@@ -452,6 +473,28 @@ def spec_obligation(job, prop, func, desc, file_=None):
     in_harness_tu = bool(file_) and (os.path.abspath(file_).startswith(CONTRACTS + os.sep) or os.path.abspath(file_).startswith(os.path.join(WORK, "gen")))
     return (func == job.harness or ".precondition." in pr or ".postcondition." in pr or desc.startswith("GUARANTEE") or
             (".assertion." in pr and (func in job.fuc or (func or "").startswith("verif_") or in_harness_tu)))
+
+
+def canary_reachable(job, cmd, log):
+    """is the end of the harness reachable under the unwinding bound of cmd?  (the canary assertion must FAIL)"""
+    base = [c for c in cmd if c not in ("--json-ui", "--trace")]
+    rc, text, dt = run(base + ["--show-properties", "--json-ui"], 120, mem_gb=job.mem_gb)
+    names = []
+    try:
+        for el in json.loads(text[text.index("["):]):
+            for pr in (el.get("properties", []) if isinstance(el, dict) else []):
+                if CANARY in (pr.get("description") or "") and (pr.get("sourceLocation", {}).get("function") or "") == job.harness:
+                    names.append(pr.get("name"))
+    except Exception:
+        return True          # cannot tell: do not block the search
+    if not names:
+        return True
+    c2 = base[:]
+    for n in names:
+        c2 += ["--property", n]
+    rc, text, dt = run(c2, min(job.timeout, 200), mem_gb=job.mem_gb)
+    log.write("canary reachability under the bound: rc=%s %.1fs\n" % (rc, dt))
+    return rc is None or "VERIFICATION FAILED" in (text or "")
 
 
 def stop_on_fail(job, cmd, wd, log, spec_only=False):
